@@ -134,7 +134,7 @@ theorem nearest_first {n : Nat} (t : KeyN n) (K α β : Nat) (hK : 1 ≤ K) (hβ
     (hterm : s.terminated = some .completed) (hne : (result (xorCfg t K α β self) s).peers ≠ []) :
     ∃ c0, (result (xorCfg t K α β self) s).peers.head? = some c0 ∧ c0 ∈ net.peers ∧
       ∀ g ∈ net.peers, g ≠ c0 → closer t.val c0.val g.val = true :=
-  nearest_first_core (xorCfg t K α β self) (xorCfg_order t K α β self) net hn
+  nearest_first_core (xorCfg t K α β self) rfl (xorCfg_order t K α β self) net hn
     (converging_of_bucketComplete t K α β hK self net hn hbc) hβ hK stop seeds hseeds evs hsched s0 s h0 h1 hterm hne
 
 variable {P : Type} [DecidableEq P]
